@@ -52,3 +52,80 @@ pub fn size_label(h: &Header) -> &'static str {
         None => "no size",
     }
 }
+
+/// Feed an arbitrary earlier history (valid pictures of any size, rejected pictures of every kind,
+/// hostile data, clean-ups) into a decoder before the pictures a check is about. Intra pictures -
+/// and everything predicted from them - must decode the same whatever came before. Returns labels;
+/// a panic in here is C01's subject and merely ends the pre-history.
+pub fn prehistory(g: &mut crate::gen::Gen, st: &mut H263State, mode: Mode, version: u8, cfg: &crate::gen_pic::PicCfg) -> Vec<&'static str> {
+    use crate::hist::*;
+    let mut labels = Vec::new();
+    let n = g.weighted(&[6, 3, 2, 1]);
+    if n == 0 {
+        return labels;
+    }
+    labels.push("decoder has an earlier history");
+    let mut like: Option<Header> = None;
+    for _ in 0..n {
+        match g.weighted(&[3, 3, 3, 2, 1]) {
+            0 => {
+                // a valid intra picture of some small size
+                let size = crate::gen_pic::gen_size(g, mode, cfg);
+                let p = crate::gen_pic::gen_intra_pic_with(g, cfg, mode, version, size);
+                if matches!(decode_bytes(st, &encode_pic(&p)), Outcome::Panic(_)) {
+                    return labels;
+                }
+                like = Some(p.hdr.clone());
+            }
+            1 => {
+                // a valid predicted (or disposable) picture when there is something to predict from
+                if let Some(l) = like.clone() {
+                    let t = if mode == Mode::Sorenson && g.bool() { PicType::D } else { PicType::P };
+                    let p = crate::gen_pic::gen_inter_pic(g, cfg, &l, t, true);
+                    if matches!(decode_bytes(st, &encode_pic(&p)), Outcome::Panic(_)) {
+                        return labels;
+                    }
+                }
+            }
+            2 => {
+                let kinds: &[BadKind] = if mode == Mode::Sorenson { &BAD_KINDS_SORENSON } else { &BAD_KINDS_STANDARD };
+                let kind = *g.pick(kinds);
+                let l = like.clone().unwrap_or_else(|| match mode {
+                    Mode::Sorenson => Header::sorenson(version, PicType::I, Size::Custom8(32, 32), 5),
+                    Mode::Standard => Header::standard(PicType::I, Size::Sqcif, 5),
+                });
+                let inter = st.get_last_picture().is_some() && g.bool();
+                let tr = g.byte();
+                let b = bad_picture(g, cfg, &l, kind, inter, tr);
+                if matches!(decode_bytes(st, &b), Outcome::Panic(_)) {
+                    return labels;
+                }
+                labels.push("earlier history contains a rejected picture");
+            }
+            3 => {
+                // a corrupted small picture (bit flips / truncation): accepted or rejected, either is fine
+                let size = like.as_ref().map(|l| l.size).unwrap_or_else(|| crate::gen_pic::gen_size(g, mode, cfg));
+                let p = crate::gen_pic::gen_intra_pic_with(g, cfg, mode, version, size);
+                let mut b = encode_pic(&p);
+                if !b.is_empty() {
+                    let flips = g.range(1, 4);
+                    for _ in 0..flips {
+                        let pos = g.below((b.len() * 8) as u32) as usize;
+                        b[pos / 8] ^= 0x80 >> (pos % 8);
+                    }
+                    if g.bool() {
+                        let keep = g.below(b.len() as u32 + 1) as usize;
+                        b.truncate(keep);
+                    }
+                }
+                if matches!(decode_bytes(st, &b), Outcome::Panic(_)) {
+                    return labels;
+                }
+            }
+            _ => {
+                let _ = crate::runner::guard(|| st.cleanup_buffers());
+            }
+        }
+    }
+    labels
+}
